@@ -10,7 +10,7 @@ from typing import Optional
 from .. import roles
 from ..dataflow import expand_locals
 from ..engine import Ctx, calls_in, early_exits, kwarg, rule, strip_order_preserving
-from ..formula import FALSE, TRUE, canon, f_not, implies, opaque, show
+from ..formula import FALSE, TRUE, canon, equivalent, f_not, implies, opaque, show
 from ..model import PKG, AnalysisError, FuncInfo, dotted, src, walk_local
 
 WRITE_METHODS = {'mkdir', 'open', 'touch', 'unlink', 'rmdir', 'rename', 'replace', 'write_text', 'write_bytes',
@@ -312,10 +312,53 @@ def c18_validator_shape(ctx: Ctx):
     # (ii) forbidden characters
     required = {"'.'": False, "'/'": False, "'\\\\'": False, 'os.path.sep': False, 'os.path.altsep': False}
     found_loop = False
+    def elements(e: ast.AST, at: int, depth: int = 0):
+        """The element expressions of the forbidden-character collection `e` denotes at node `at`: a literal display,
+        a `[c for c in <collection> if c is not None]` filter of one, or a local list literal extended by
+        `name.append(X)` statements that are unconditional or guarded by exactly `X is not None`."""
+        from ..engine import cond_from_entry, formula_of
+        e = strip_order_preserving(e)
+        if depth > 4:
+            return None
+        if isinstance(e, (ast.List, ast.Tuple, ast.Set)):
+            return list(e.elts)
+        if isinstance(e, ast.ListComp) and len(e.generators) == 1 and isinstance(e.elt, ast.Name) \
+                and isinstance(e.generators[0].target, ast.Name) and e.elt.id == e.generators[0].target.id:
+            gen = e.generators[0]
+            okf = all(isinstance(c, ast.Compare) and isinstance(c.left, ast.Name) and c.left.id == e.elt.id and len(c.ops) == 1
+                      and isinstance(c.ops[0], ast.IsNot) and isinstance(c.comparators[0], ast.Constant) and c.comparators[0].value is None
+                      for c in gen.ifs)
+            return elements(gen.iter, at, depth + 1) if okf else None
+        if isinstance(e, ast.Name):
+            d = rd.single_def(at, e.id)
+            dv = rd.def_value(d, e.id) if d is not None else None
+            if not dv or dv[0] != 'value':
+                return None
+            base = elements(dv[1], d, depth + 1)
+            if base is None:
+                return None
+            out = list(base)
+            for c in calls_in(v.node):
+                if isinstance(c.func, ast.Attribute) and c.func.attr == 'append' and isinstance(c.func.value, ast.Name) \
+                        and c.func.value.id == e.id and len(c.args) == 1:
+                    cnode = g.primary(c)
+                    if not g.dominates(d, cnode) or at not in g.reachable([cnode], exc=False):
+                        continue
+                    cond = cond_from_entry(ctx, v, c)
+                    # relative to the definition: only the append's own guard may differ
+                    base_cond = facts.formula_at(d, fb, expand=exp)
+                    own = formula_of(ctx, v, f'{src(c.args[0])} is not None')
+                    if equivalent(cond, base_cond) or equivalent(cond, f_and_(base_cond, own)):
+                        out.append(c.args[0])
+            return out
+        return None
+
+    from ..formula import f_and as f_and_
     for lp in [n for n in walk_local(v.node) if isinstance(n, ast.For) and isinstance(n.target, ast.Name)]:
-        it = expand_locals(g, rd, lp.iter, g.primary(lp))
-        if not isinstance(it, (ast.List, ast.Tuple, ast.Set)):
+        elts = elements(lp.iter, g.primary(lp))
+        if elts is None:
             continue
+        it = ast.List(elts=elts, ctx=ast.Load())
         cv = lp.target.id
         # body must raise whenever cv in key (and cv is not None)
         raises = [n for n in walk_local(lp) if isinstance(n, ast.Raise)]
